@@ -120,6 +120,7 @@ class Engine {
     decided.clear();
   }
   const char *logic = "QF_NRA";
+  unsigned long uninit_counter = 0;
   static Engine &get() {
     static Engine e;
     return e;
@@ -220,6 +221,7 @@ class Engine {
     pc.clear();
     decided.clear();
     vars.clear();
+    uninit_counter = 0;
     h1 = 0x9e3779b97f4a7c15ULL;
     h2 = 0xc2b2ae3d27d4eb4fULL;
   }
@@ -399,7 +401,13 @@ class Real {
   FacMS d;
 
  public:
+#ifdef SYMT_POISON_DEFAULT
+  // The documented requirements promise default construction, not that it yields zero: a default-constructed value
+  // is an arbitrary number (fresh unconstrained symbol), so any result that depends on it cannot be proved.
+  Real() : n(ctx().real_val(0)) { *this = var("uninit" + std::to_string(Engine::get().uninit_counter++)); }
+#else
   Real() : n(ctx().real_val(0)) {}
+#endif
   template <typename I, std::enable_if_t<std::is_integral_v<I>, bool> = true>
   explicit Real(I i) : n(ctx().real_val(std::to_string((long long)i).c_str())) {}
   Real(z3::expr nn, FacMS dd) : n(nn), d(std::move(dd)) {}
@@ -535,6 +543,7 @@ class Engine {
   std::map<std::string, Q> model;
   std::map<std::string, unsigned long long> fmodel;  // IEEE bit patterns for sym::F64 variables
   const char *logic = nullptr;
+  unsigned long uninit_counter = 0;
   bool assumptions_ok = true;
   static Engine &get() {
     static Engine e;
@@ -648,7 +657,11 @@ class Real {
   static size_t K() { return Tower::get().K(); }
 
  public:
+#ifdef SYMT_POISON_DEFAULT
+  Real() : v{Q(0)} { *this = var("uninit" + std::to_string(Engine::get().uninit_counter++)); }
+#else
   Real() : v{Q(0)} {}
+#endif
   template <typename I, std::enable_if_t<std::is_integral_v<I>, bool> = true>
   explicit Real(I i) : v{Q((long long)i)} {}
   struct FromQ {};
